@@ -40,3 +40,10 @@ Proof. exact unknown_software_no_add. Qed.
 
 Theorem c13_no_software_no_recommendations : forall d k suppress, recommendations None d k suppress = [].
 Proof. exact no_software_no_recommendations. Qed.
+
+(* literals the model repeats from the source are the ones the translator extracts from the current source (gen/Tables.v) *)
+From VGen Require Import Tables.
+From VModel Require Import Recs.
+From VProofs Require Import TieProofs.
+Theorem c13_tie_chg_note : chg_notes = src_chg_note.
+Proof. exact tie_chg_note. Qed.
